@@ -44,7 +44,29 @@ def report(chk, verdicts, meta, prop_filter):
                 {"id": v["id"], "ops": ops, "codec": codec, "page": page, "event": v["e"], "why": why})
 
 
+PW_CFG = ("CONSTANTS\n PerBatchBlocks = %s\n MaxRows = %d\n PageTarget = 76\nINIT Init\nNEXT Next\n"
+          "INVARIANT EveryPageDecodes\nCHECK_DEADLOCK FALSE\n")
+
+
+def design_model(chk, tier):
+    """Implementation-shaped model of the page writer (PageWriterImpl.tla): the repaired design must
+    satisfy `every page decodes to the rows added to it`; the design of the pinned commit (one level
+    block per write_batch) must violate it - otherwise the model has lost its teeth."""
+    rows = 6 if tier == "quick" else 8
+    r = common.run_tlc("MC_PageWriterImpl", constants_text=PW_CFG % ("FALSE", rows), workers=8, want_cases=False, timeout=2400)
+    if r.violated:
+        chk.violation("page-writer-design:" + r.violated, "TLC: the page-writer design as implemented violates " + r.violated, r.out[-2500:])
+    elif r.rc != 0:
+        raise common.InfraError("MC_PageWriterImpl failed\n" + r.out[-1500:])
+    chk.add_tlc(r)
+    r2 = common.run_tlc("MC_PageWriterImpl", constants_text=PW_CFG % ("TRUE", rows), workers=2, want_cases=False)
+    if not r2.violated:
+        raise common.InfraError("PageWriterImpl no longer rejects the per-batch level-block design (vacuous model)")
+    chk.part("design_model", states=r.distinct, pinned_design_counterexample_found=True)
+
+
 def run(chk, tier, replay):
+    design_model(chk, tier)
     chk.assumptions += ["Write histories stay inside the documented API contract (non-empty batches, balanced columns, non-NULL values pointer)",
                         "Values returned for a nullable column are dense per read_batch call (DESIGN.md section 5)",
                         "TLC; WriterTrace.tla/Writer.tla; harness h_file copies bytes only"]
